@@ -784,6 +784,12 @@ func (e *scanEnv) runCLI(sc cases.ScanCase, opt cliOpt) (*cliRun, error) {
 	if err != nil {
 		return nil, err
 	}
+	if keep := os.Getenv("VERIF_KEEP"); keep != "" { // development aid: leave the repository of a replayed case behind
+		os.RemoveAll(keep)
+		os.MkdirAll(keep, 0o755)
+		dir = keep
+		opt.KeepRepo = true
+	}
 	if !opt.KeepRepo {
 		defer os.RemoveAll(dir)
 	}
@@ -817,6 +823,9 @@ func (e *scanEnv) runCLI(sc cases.ScanCase, opt cliOpt) (*cliRun, error) {
 	}
 	args = append(args, opt.ExtraArgs...)
 	res.Args = args
+	if os.Getenv("VERIF_KEEP") != "" {
+		fmt.Printf("KEPT %s args %q\n", repoDir, args)
+	}
 	trace := ""
 	if !opt.NoTrace {
 		trace = filepath.Join(dir, "trace.ndjson")
